@@ -4,8 +4,10 @@ package main
 // assumes about the reconciliation code.
 
 import (
+	"fmt"
 	"go/ast"
 	"go/token"
+	"regexp"
 	"strings"
 )
 
@@ -139,6 +141,93 @@ func init() {
 		}
 		w.Line("/-- maps ranged over by NewWatcher -/")
 		w.Line("def newWatcherRanges : List String := %s", StrList(c20Ranges(r, nw.Body)))
+
+		// Engineer mux (event queue, seeded C20-m5): the consumer loops receive ONE event per iteration from the
+		// watcher's channel and pass it unmodified to handleEvent. For Supervisor.run and
+		// RawConfigTrafficController.run: the statements of the select case that receives from `….Watch()`, and, per
+		// file, every receive from a `Watch()` channel and every argument handed to handleEvent.
+		loopFacts := func(file, recv string) (caseBody, receives, heArgs []string, err error) {
+			fd, err := r.Func(file, recv, "run")
+			if err != nil {
+				return nil, nil, nil, err
+			}
+			ast.Inspect(fd.Body, func(n ast.Node) bool {
+				cc, ok := n.(*ast.CommClause)
+				if !ok || cc.Comm == nil || !strings.Contains(r.Src(cc.Comm), ".Watch()") {
+					return true
+				}
+				// the received value's name is normalised to `ev` (robust against renaming it)
+				bound := ""
+				if as, ok := cc.Comm.(*ast.AssignStmt); ok && len(as.Lhs) == 1 {
+					if id, ok := as.Lhs[0].(*ast.Ident); ok {
+						bound = id.Name
+					}
+				}
+				norm := func(n ast.Node) string {
+					src := r.Src(n)
+					if bound == "" {
+						return src
+					}
+					return regexp.MustCompile(`\b`+regexp.QuoteMeta(bound)+`\b`).ReplaceAllString(src, "ev")
+				}
+				caseBody = append(caseBody, norm(cc.Comm))
+				for _, st := range cc.Body {
+					caseBody = append(caseBody, norm(st))
+				}
+				ast.Inspect(cc, func(m ast.Node) bool {
+					if x, ok := m.(*ast.CallExpr); ok {
+						if se, ok := x.Fun.(*ast.SelectorExpr); ok && se.Sel.Name == "handleEvent" {
+							for _, a := range x.Args {
+								heArgs = append(heArgs, norm(a))
+							}
+						}
+					}
+					return true
+				})
+				return true
+			})
+			f, err := r.File(file)
+			if err != nil {
+				return nil, nil, nil, err
+			}
+			nHandle := 0
+			ast.Inspect(f, func(n ast.Node) bool {
+				switch x := n.(type) {
+				case *ast.UnaryExpr:
+					if x.Op == token.ARROW && strings.HasSuffix(r.Src(x.X), ".Watch()") {
+						receives = append(receives, r.Src(x))
+					}
+				case *ast.RangeStmt:
+					if strings.HasSuffix(r.Src(x.X), ".Watch()") {
+						receives = append(receives, "range "+r.Src(x.X))
+					}
+				case *ast.CallExpr:
+					if se, ok := x.Fun.(*ast.SelectorExpr); ok && se.Sel.Name == "handleEvent" {
+						nHandle++
+					}
+				}
+				return true
+			})
+			heArgs = append(heArgs, fmt.Sprintf("calls:%d", nHandle))
+			return caseBody, receives, heArgs, nil
+		}
+		cb, rc, ha, err := loopFacts("pkg/supervisor/supervisor.go", "Supervisor")
+		if err != nil {
+			return err
+		}
+		w.Line("/-- Supervisor.run: the select case receiving from the watcher channel, comm first, then its statements -/")
+		w.Line("def supervisorRunWatchCase : List String := %s", StrList(cb))
+		w.Line("/-- every receive from a `Watch()` channel in supervisor.go -/")
+		w.Line("def supervisorWatchReceives : List String := %s", StrList(rc))
+		w.Line("/-- arguments of the handleEvent call(s) inside that select case, then the number of handleEvent calls in the file -/")
+		w.Line("def supervisorHandleEventArgs : List String := %s", StrList(ha))
+		cb, rc, ha, err = loopFacts("pkg/object/rawconfigtrafficcontroller/rawconfigtrafficcontroller.go", "RawConfigTrafficController")
+		if err != nil {
+			return err
+		}
+		w.Line("def trafficRunWatchCase : List String := %s", StrList(cb))
+		w.Line("def trafficWatchReceives : List String := %s", StrList(rc))
+		w.Line("def trafficHandleEventArgs : List String := %s", StrList(ha))
 		return nil
 	}})
 }
